@@ -306,7 +306,7 @@ class Gen:
             # recursive call from inside the function: first argument strictly decreases
             args[0] = ["bin", "Sub", var(sc["recvar"]), lit(1)]
         elif isrec:
-            args[0] = lit(r.randint(0, 3))
+            args[0] = lit(r.randint(0, isrec))
         return ["call", name, args]
 
     def bool_expr(self, sc, d=0):
@@ -378,6 +378,22 @@ class Gen:
             return ["expr", self.call(sc, 0)]
         return tag(self.lab(), self.int_expr(sc))
 
+    def call_then_reread(self, sc):
+        """call with the caller's own variables as arguments, then print those variables again"""
+        r = self.rng
+        cands = [c for c in sc["callable"] if not c[3]]
+        if not cands or not sc["ints"]:
+            return [self.simple(sc)]
+        name, npar, nreq, rec, isrec, _void = r.choice(cands)
+        vs = [r.choice(sc["ints"]) for _ in range(r.randint(nreq, npar))]
+        args = [var(x) for x in vs]
+        if isrec:
+            args[0] = lit(r.randint(0, isrec))
+        out = [tag(self.lab(), ["call", name, args])]
+        for x in dict.fromkeys(vs):
+            out.append(tag(x + "=", var(x)))
+        return out
+
     def jump(self, sc):
         """a break/continue/return that is legal here"""
         r = self.rng
@@ -425,6 +441,14 @@ class Gen:
         """returns a list of statements (loops come with their counter initialisation)"""
         r = self.rng
         c = r.random()
+        if c < 0.06:
+            return self.call_then_reread(sc)
+        if sc["infunc"] and sc.get("params") and c < 0.12:
+            # accumulate into a by-value parameter (the caller's variable / the default must not change)
+            pn = r.choice(sc["params"])
+            op = r.choice(["Add", "Mul"])
+            rhs = var(r.choice(sc["ints"])) if r.random() < 0.5 else lit(r.randint(1, 3))
+            return [["expr", ["assign", pn, ["bin", op, var(pn), rhs]]]]
         if d >= 3 or c < 0.42:
             return [self.simple(sc)]
         if c < 0.5:
@@ -547,6 +571,7 @@ class Gen:
         nreq = r.randint(1, npar)
         params = [(p, None if i < nreq else (r.randint(0, 5),)) for i, p in enumerate(pnames)]
         sc = self.new_scope(True, pnames)
+        sc["params"] = [x for x in pnames if x != "n"]
         sc["callable"] = [f for f in self.funcs if not f[5]]
         sc["procs"] = [f for f in self.funcs if f[5]]
         body = []
@@ -556,7 +581,7 @@ class Gen:
         body += self.prologue(sc) if not recursive else []
         if recursive:
             body.append(["if", ["bin", "Le", var("n"), lit(0)], [["return", self.int_expr(sc, 1)]], [], []])
-            sc["callable"] = sc["callable"] + [(name, npar, nreq, True, True, False)]
+            sc["callable"] = sc["callable"] + [(name, npar, nreq, True, 1, False)]
             sc["recvar"] = "n"
             sc["assignable"] = [x for x in sc["assignable"] if x != "n"]
             body += self.prologue(sc)
@@ -569,7 +594,10 @@ class Gen:
         body += self.block(sc, 1, r.randint(1, 4))
         if not void:
             body.append(["return", self.int_expr(sc)])
-        self.funcs.append((name, npar, nreq, False, recursive, void))
+        # how deep callers may drive the recursion: linear recursion up to 7, tree recursion less
+        nsites = json.dumps(body).count('["call", "%s"' % name)
+        maxn = 0 if not recursive else (7 if nsites <= 1 else 5 if nsites == 2 else 3)
+        self.funcs.append((name, npar, nreq, False, maxn, void))
         return {"name": name, "params": [[p, None if dflt is None else [dflt[0]]] for p, dflt in params], "body": body}
 
     def program(self):
@@ -650,6 +678,84 @@ def escape_programs():
                          [tag("i:", var("i")), ["expr", ["call", "esc", [var("i")]]], tag("back:", var("i"))]],
                         tag("end:", var("i"))]
                 out.append({"funcs": [f], "main": main})
+    return out
+
+
+def recursion_programs():
+    """deep recursion through one call site with a parameter / local READ AFTER the recursive call returned
+    (non-tail positions), mutual recursion, recursion inside loops, several live activations of one function"""
+    out = []
+    n, r, a = var("n"), var("r"), var("a")
+    call = lambda f, e: ["call", f, [e]]
+    dec = ["bin", "Sub", n, lit(1)]
+    base = ["if", ["bin", "Le", n, lit(0)], [["return", lit(1)]], [], []]
+    shapes = {
+        "after_mul": [base, ["return", ["bin", "Mul", call("f", dec), n]]],                       # f(n-1) * n
+        "before_mul": [base, ["return", ["bin", "Mul", n, call("f", dec)]]],                      # n * f(n-1)
+        "local_then_add": [base, ["expr", ["assign", "r", call("f", dec)]], ["return", ["bin", "Add", r, n]]],
+        "local_before": [base, ["expr", ["assign", "a", ["bin", "Mul", n, lit(2)]]],
+                         ["expr", ["assign", "r", call("f", dec)]], tag("a", a), ["return", ["bin", "Add", r, a]]],
+        "echo_after": [base, tag("in", n), ["expr", ["assign", "r", call("f", dec)]], tag("out", n), ["return", ["bin", "Add", r, lit(1)]]],
+        "two_sites": [["if", ["bin", "Le", n, lit(1)], [["return", n]], [], []],
+                      ["return", ["bin", "Add", call("f", dec), call("f", ["bin", "Sub", n, lit(2)])]]],
+        "in_loop": [base, ["expr", ["assign", "r", lit(0)]],
+                    ["for", [["assign", "i", lit(0)]], ["bin", "Lt", var("i"), lit(2)], [["postinc", "i"]],
+                     [["expr", ["assign", "r", ["bin", "Add", r, call("f", dec)]]], tag("i", ["bin", "Add", var("i"), n])]],
+                    ["return", ["bin", "Add", r, n]]],
+        "static_depth": [["static", "depth", 0], ["expr", ["postinc", "depth"]], base,
+                         ["expr", ["assign", "r", call("f", dec)]], ["return", ["bin", "Add", ["bin", "Add", r, n], var("depth")]]],
+    }
+    for name, body in shapes.items():
+        for depth in ((3, 5, 7) if name not in ("two_sites", "in_loop") else (3, 5)):
+            f = {"name": "f", "params": [["n", None]], "body": body}
+            main = [["expr", ["assign", "n", lit(40)]], tag(name + "=", call("f", lit(depth))), tag(" n=", n),
+                    tag(" again=", call("f", lit(depth - 1)))]
+            out.append({"funcs": [f], "main": main})
+    # mutual recursion (the second function is declared after the first one that calls it)
+    ev = {"name": "ev", "params": [["n", None]],
+          "body": [["if", ["bin", "Eq", n, lit(0)], [["return", lit(1)]], [], []],
+                   ["expr", ["assign", "r", call("od", dec)]], ["return", ["bin", "Add", ["bin", "Mul", r, lit(2)], n]]]}
+    od = {"name": "od", "params": [["n", None]],
+          "body": [["if", ["bin", "Eq", n, lit(0)], [["return", lit(0)]], [], []],
+                   ["return", ["bin", "Add", call("ev", dec), n]]]}
+    for depth in (2, 5, 8):
+        out.append({"funcs": [ev, od], "main": [tag("ev=", call("ev", lit(depth))), tag(" od=", call("od", lit(depth)))]})
+    return out
+
+
+def paramalias_programs():
+    """a by-value parameter (bound from a caller variable, from a literal, or from its default) is accumulated
+    inside a loop body of the callee; afterwards the caller reads its own variable, and the function is called
+    again relying on the default / the same literal"""
+    out = []
+    p, q, i = var("p"), var("q"), var("i")
+    accs = {
+        "add_var": [["expr", ["assign", "p", ["bin", "Add", p, i]]]],
+        "add_lit": [["expr", ["assign", "p", ["bin", "Add", p, lit(3)]]]],
+        "mul_lit": [["expr", ["assign", "p", ["bin", "Mul", p, lit(2)]]]],
+        "both": [["expr", ["assign", "p", ["bin", "Add", p, i]]], ["expr", ["assign", "q", ["bin", "Mul", q, lit(2)]]]],
+        "inc": [["expr", ["postinc", "p"]], ["expr", ["assign", "q", ["bin", "Add", q, p]]]],
+    }
+    def loop(kind, body):
+        if kind == "for":
+            return [["for", [["assign", "i", lit(0)]], ["bin", "Lt", i, lit(3)], [["postinc", "i"]], body]]
+        if kind == "while":
+            return [["expr", ["assign", "i", lit(0)]], ["while", ["bin", "Lt", i, lit(3)], [["expr", ["postinc", "i"]]] + body]]
+        if kind == "foreach":
+            return [["foreach", ["arr", [lit(0), lit(1), lit(2)]], None, "i", body]]
+        return body                                  # straight line
+    for kind in ("for", "while", "foreach", "none"):
+        for name, acc in accs.items():
+            body = ([["expr", ["assign", "i", lit(1)]]] if kind == "none" else []) + loop(kind, acc) + \
+                   [["return", ["bin", "Add", p, q]]]
+            f = {"name": "acc", "params": [["p", None], ["q", [5]]], "body": body}
+            main = [["expr", ["assign", "x", lit(10)]], ["expr", ["assign", "y", lit(7)]],
+                    tag("a=", ["call", "acc", [var("x")]]), tag(" x=", var("x")),
+                    tag(" b=", ["call", "acc", [var("x"), var("y")]]), tag(" x=", var("x")), tag(" y=", var("y")),
+                    tag(" c=", ["call", "acc", [lit(1)]]), tag(" d=", ["call", "acc", [lit(1)]]),
+                    ["for", [["assign", "k", lit(0)]], ["bin", "Lt", var("k"), lit(2)], [["postinc", "k"]],
+                     [tag(" e=", ["call", "acc", [lit(4)]]), tag(" f=", ["call", "acc", [var("k"), lit(2)]]), tag(" k=", var("k"))]]]
+            out.append({"funcs": [f], "main": main})
     return out
 
 
@@ -941,9 +1047,16 @@ def run_impl(binary, progs, ck):
             except subprocess.TimeoutExpired:
                 p.kill()
                 out, err = p.communicate()
-            lines = [l for l in out.splitlines() if l.strip()]
-            for i, l in zip(idxs, lines):
-                results[i] = json.loads(l)
+            lines = []
+            for l in out.splitlines():
+                if not l.startswith("@@R@@ "):
+                    continue                     # stray output written past the capture: not a result
+                try:
+                    lines.append(json.loads(l[6:]))
+                except ValueError:
+                    lines.append({"out": "", "outcome": "garbled", "detail": l[:200]})
+            for i, o in zip(idxs, lines):
+                results[i] = o
             if len(lines) < len(idxs):
                 # the engine died on case idxs[len(lines)] (fatal error / timeout): attribute it, go on after it
                 bad = idxs[len(lines)]
@@ -998,6 +1111,10 @@ def main(ck):
             cases.append((pr, True, None, "alias"))
         for pr in escape_programs():
             cases.append((pr, False, None, "escape"))
+        for pr in recursion_programs():
+            cases.append((pr, True, None, "recursion"))
+        for pr in paramalias_programs():
+            cases.append((pr, True, None, "paramalias"))
         nrand = 450 if ck.tier == "quick" else 6000
         discarded = 0
         while nrand > 0:
@@ -1081,12 +1198,14 @@ def main(ck):
     ck.cov["construct_occurrences"] = dist
     ck.cov["program_size_median"] = sizes[len(sizes) // 2] if sizes else 0
     ck.cov["program_size_max"] = sizes[-1] if sizes else 0
-    ck.cov["families"] = {f: sum(1 for c in cases if c[3] == f) for f in ("nest2", "alias", "escape", "random", "dirty", "replay")}
+    ck.cov["families"] = {f: sum(1 for c in cases if c[3] == f) for f in ("nest2", "alias", "escape", "recursion", "paramalias", "random", "dirty", "replay")}
     ck.cov["impl_outcomes"] = outcome_hist
     ck.samples = [srcs[len(srcs) // 2], srcs[-1]] if srcs else []
     ck.finish(level="proof", evaluations=len(cases), distinct_nontrivial=nontriv,
               rule="programs: every two-level nesting of {for, while, do-while, foreach, switch}^2 x {break, continue} x {1, 2} x "
-                   "{jump before/after the echo} (200), 18 boxed-integer aliasing probes, seeded random typed programs (functions with defaults, recursion, statics; "
+                   "{jump before/after the echo} (200), 18 boxed-integer aliasing probes, 25 recursion probes (depth up to 8, reads after the recursive call, "
+                   "mutual recursion, recursion in loops), 20 parameter-aliasing probes (accumulating a by-value / defaulted parameter "
+                   "in for/while/foreach bodies, caller's variable and default re-read afterwards), seeded random typed programs (functions with defaults, recursion, statics; "
                    "nesting <= 5), and a separate stream of small programs in the recorded defect classes; non-trivial = distinct "
                    "program containing at least one loop, switch or call",
               traces=len(terms))
